@@ -32,6 +32,7 @@ Line protocol of the C08 model (fast fields / columnar).
   dictstack <dicts> <inputs>         -> `merged;rows` of merge_bytes_or_str_column under MergeRowOrder::Stack
   colfile <hex> <docs|all>           -> `card numDocs numVals;rows` open_column_u64 on a whole column file and
                                         values_for_doc of the docs | corrupt
+  colfilebytes <hex> <docs|all>      -> `dictLen card numDocs numVals;rows` open_column_bytes on a Str / Bytes column file
   colfile128 <hex> <docs|all>        -> the same through open_column_u128 (compact-space values)
   dictshuffle <used> <order> <dicts> <inputs> -> `merged;rows` of merge_bytes_or_str_column: the merged
                                         dictionary and the rows of remapped ordinals (inputs: rows of old ordinals)
@@ -257,6 +258,11 @@ def handle : List String → String
       showNatList m.1 ++ ";" ++ showRows (read m.2.1 m.2.2)
     | _, _ => "bad-op"
   | ["colfile", h, docs] => showColFile ((bytesArg h).map openColumnFile) docs
+  | ["colfilebytes", h, docs] =>
+    match (bytesArg h).map openBytesColumnFile with
+    | some (some (d, f)) => s!"{d.length} " ++ showColFile (some (some f)) docs
+    | some none => "corrupt"
+    | none => "bad-op"
   | ["colfile128", h, docs] => showColFile ((bytesArg h).map openColumnFile128) docs
   | ["inrange", lo, hi, rows] =>
     match lo.toNat?, hi.toNat?, parseRows rows with
